@@ -51,15 +51,15 @@ pub fn plan_of(codes: &[String]) -> ValidationPlan {
     plan
 }
 
-/// the owner named by a KnownArgumentNames message
+/// the owner named by a KnownArgumentNames message: the quoted `Type.field` or `@directive`
+/// (whatever the wording around it)
 fn info_of(e: &ValidationError) -> String {
     if e.error_code == "KnownArgumentNames" {
-        for (marker, prefix) in [("on field \"", ""), ("on directive \"", "")] {
-            if let Some(i) = e.message.find(marker) {
-                let rest = &e.message[i + marker.len()..];
-                if let Some(j) = rest.find('"') {
-                    return format!("{}{}", prefix, &rest[..j]);
-                }
+        let parts: Vec<&str> = e.message.split('"').collect();
+        // quoted substrings are the odd-numbered parts
+        for q in parts.iter().skip(1).step_by(2) {
+            if q.starts_with('@') || q.contains('.') {
+                return q.to_string();
             }
         }
         return "?".to_string();
